@@ -8,6 +8,7 @@ import (
 	"fmt"
 	"net/http"
 	"net/url"
+	"os"
 	"regexp"
 	"strings"
 
@@ -30,6 +31,10 @@ import (
 // are written from the documentation only: the expected outcome *class* of every baseline
 // (fixture / non-vacuity check, never a violation) and "trusted <=> the configured header holds an
 // address inside --trusted-ip" for reverse-proxy mode (docs/configuration/overview.md).
+//
+// Further parts on the same environment, run function and oracle: c16_methods_test.go (methods
+// other than GET, Redis store, twelve further forwarding-style headers, reverse-proxy ON per
+// method) and c16_redirects_test.go (redirect targets and forwarding headers naming the same hosts).
 
 // ---------------------------------------------------------------------------------------------
 // alphabet
@@ -216,6 +221,8 @@ type c16Config struct {
 	Whitelist  bool   // .example.com whitelisted
 	DomainPart string // forwarded-host part that selects another cookie domain when believed
 	Htpasswd   bool   // --htpasswd-file with user hugo/pw1 (form login on /oauth2/sign_in)
+	Redis      bool   // sessions in the Redis store (ticket cookie); see c16_methods_test.go
+	Preflight  bool   // --skip-auth-preflight=true
 }
 
 var (
@@ -277,19 +284,23 @@ func c16ForceHTTPS(px *Proxy) error {
 // requests
 
 type c16Request struct {
-	Name       string
-	Method     string // default GET
-	Body       string // form body (POST)
-	Target     string
-	Host       string
-	Cred       bool
-	Remote     string
-	TLS        bool
-	HTTP10     bool   // HTTP/1.0 request without a Host header (legal)
-	Flow       string // "" | "callback" (headers on the callback only) | "login" (headers on start and callback)
-	Full       bool   // full product of header assignments
-	Class      string // expected class of the baseline (reference, from the documentation)
-	MustMatter []string
+	Name     string
+	Method   string // default GET
+	Body     string // form body (POST)
+	Target   string
+	Host     string
+	Cred     bool
+	Remote   string
+	TLS      bool
+	HTTP10   bool   // HTTP/1.0 request without a Host header (legal)
+	Flow     string // "" | "callback" (headers on the callback only) | "login" (headers on start and callback)
+	FormFlow bool   // flows: the callback parameters travel in a form body instead of the query (form_post)
+	// flows: another start request than /oauth2/start?rd=<protected page> (c16_redirects_test.go)
+	StartTarget  string
+	StartHeaders [][2]string
+	Full         bool   // full product of header assignments
+	Class        string // expected class of the baseline (reference, from the documentation)
+	MustMatter   []string
 }
 
 var c16IPParts = func() []string {
@@ -473,6 +484,7 @@ type c16Obs struct {
 	Note     string   `json:"note,omitempty"`
 	Start    *c16Obs  `json:"start_step,omitempty"`
 	Session  bool     `json:"session_cookie_set,omitempty"`
+	Store    []string `json:"store_ops,omitempty"` // Redis configurations: operations on the session store, in order
 }
 
 func (o *c16Obs) str() string {
@@ -481,6 +493,32 @@ func (o *c16Obs) str() string {
 }
 
 var c16LinkRE = regexp.MustCompile(`(?:href|action|value|src)="([^"]*)"`)
+
+// c16Links returns what c16LinkRE.FindAllStringSubmatch(body, -1) captures — the values of all
+// href/action/value/src attributes in order — by a linear scan (the backtracking matcher was the
+// single most expensive step of a run).
+func c16Links(body string) []string {
+	var out []string
+	for i := 0; i < len(body); {
+		j := strings.Index(body[i:], `="`)
+		if j < 0 {
+			break
+		}
+		j += i
+		pre := body[:j]
+		if !(strings.HasSuffix(pre, "href") || strings.HasSuffix(pre, "action") || strings.HasSuffix(pre, "value") || strings.HasSuffix(pre, "src")) {
+			i = j + 1
+			continue
+		}
+		k := strings.IndexByte(body[j+2:], '"')
+		if k < 0 {
+			break // no closing quote from here on: nothing further can match either
+		}
+		out = append(out, body[j+2:j+2+k])
+		i = j + 2 + k + 1
+	}
+	return out
+}
 
 func (o *c16Obs) class() string {
 	switch {
@@ -536,6 +574,9 @@ func c16Diff(a, b *c16Obs) (group, detail string) {
 	if a.Note != b.Note {
 		return "decision", fmt.Sprintf("%q vs %q", a.Note, b.Note)
 	}
+	if fmt.Sprint(a.Store) != fmt.Sprint(b.Store) {
+		return "decision", fmt.Sprintf("session-store operations %v vs %v", a.Store, b.Store)
+	}
 	if a.Location != b.Location {
 		if ra, rb := a.redirectURI(), b.redirectURI(); ra != rb {
 			return "redirect", fmt.Sprintf("OAuth redirect_uri %q vs %q", ra, rb)
@@ -573,11 +614,15 @@ type c16Env struct {
 	cred      map[string]string // config name -> Cookie header of a valid session
 	confirmed map[string]int
 	blocks    map[int]*c16Block
+	stores    map[string]*c16Store // Redis configurations: config name -> store shared by the proxy and its twins
+	cur       *c16Store            // store of the run in progress (nil: cookie store)
+	curMark   int
+	xblocks   map[int]*c16xBlock
 }
 
 func c16NewEnv(c *Ctx) *c16Env {
 	return &c16Env{c: c, up: world.NewUpstream("u"), idp: world.NewIdP(), proxies: map[string]*Proxy{}, cred: map[string]string{},
-		confirmed: map[string]int{}, blocks: map[int]*c16Block{}}
+		confirmed: map[string]int{}, blocks: map[int]*c16Block{}, stores: map[string]*c16Store{}, xblocks: map[int]*c16xBlock{}}
 }
 
 var c16HtpasswdFile string
@@ -607,7 +652,11 @@ func (e *c16Env) proxy(cfg *c16Config, rpHeader string) *Proxy {
 	if px := e.proxies[k]; px != nil {
 		return px
 	}
-	px := mustProxy(&ProxyCfg{Flags: c16Flags(e.up, cfg, rpHeader)})
+	pc := &ProxyCfg{Flags: c16Flags(e.up, cfg, rpHeader)}
+	if cfg.Redis {
+		pc.Redis = e.storeFor(cfg).R
+	}
+	px := mustProxy(pc)
 	if rpHeader == "" && e.cred[cfg.Name] == "" {
 		// a valid credential: one real login, cookie taken from the callback response
 		world.SeedRandom(e.c.Seed, 9999)
@@ -626,6 +675,9 @@ func (e *c16Env) proxy(cfg *c16Config, rpHeader string) *Proxy {
 			e.c.Error("config %s: login for the valid credential failed: err=%v status=%d", cfg.Name, err, resp.Status)
 		}
 		e.cred[cfg.Name] = strings.Join(parts, "; ")
+		if cfg.Redis {
+			e.storeFor(cfg).snapshot() // the stored session behind the ticket; put back before every run
+		}
 	}
 	if cfg.ForceHTTPS {
 		if err := c16ForceHTTPS(px); err != nil {
@@ -675,8 +727,18 @@ func (e *c16Env) observe(resp *world.Resp, idpMark int) *c16Obs {
 	for _, l := range e.up.Take() {
 		o.Upstream = append(o.Upstream, l.Method+" "+l.RequestURI)
 	}
-	for _, m := range c16LinkRE.FindAllStringSubmatch(resp.Body, -1) {
-		o.Links = append(o.Links, m[1])
+	o.Links = c16Links(resp.Body)
+	if !e.c.Quick() || os.Getenv("VERIF_C16_LINKCHECK") != "" { // cross-check of the scanner against the expression (thorough tier: always)
+		var ref []string
+		for _, m := range c16LinkRE.FindAllStringSubmatch(resp.Body, -1) {
+			ref = append(ref, m[1])
+		}
+		if fmt.Sprintf("%q", ref) != fmt.Sprintf("%q", o.Links) {
+			e.c.Error("c16Links differs from the expression: %q vs %q", o.Links, ref)
+		}
+	}
+	if e.cur != nil {
+		o.Store = e.cur.R.Ops(e.curMark)
 	}
 	calls := e.idp.Calls
 	if idpMark <= len(calls) {
@@ -699,6 +761,12 @@ func (e *c16Env) run(px *Proxy, cfg *c16Config, rq *c16Request, lines [][2]strin
 	world.SeedRandom(e.c.Seed, gen)
 	world.ResetClock()
 	e.up.Take()
+	e.cur = nil
+	if cfg.Redis {
+		e.cur = e.storeFor(cfg)
+		e.cur.restore()
+		e.curMark = e.cur.R.NumCalls()
+	}
 	mark := len(e.idp.Calls)
 	if rq.Flow == "" {
 		r := &world.Req{Method: "GET", Target: rq.Target, Host: rq.Host, Remote: rq.Remote, HTTP10: rq.HTTP10}
@@ -718,6 +786,10 @@ func (e *c16Env) run(px *Proxy, cfg *c16Config, rq *c16Request, lines [][2]strin
 	// login flow with a fresh jar: start -> provider -> callback
 	jar := world.NewJar()
 	sr := &world.Req{Method: "GET", Target: "/oauth2/start?rd=" + url.QueryEscape(c16Protected), Host: rq.Host, Remote: rq.Remote}
+	if rq.StartTarget != "" {
+		sr.Target = rq.StartTarget
+	}
+	sr.Headers = append(sr.Headers, rq.StartHeaders...)
 	if rq.Flow == "login" {
 		sr.Headers = append(sr.Headers, lines...)
 	}
@@ -736,11 +808,21 @@ func (e *c16Env) run(px *Proxy, cfg *c16Config, rq *c16Request, lines [][2]strin
 		return &c16Obs{Status: -1, Note: "flow stopped: unparsable callback URL", Start: start}
 	}
 	cr := &world.Req{Method: "GET", Target: u.RequestURI(), Host: rq.Host, Remote: rq.Remote}
+	if rq.Method != "" {
+		cr.Method = rq.Method
+	}
+	if rq.FormFlow {
+		cr.Target, cr.Body = u.Path, u.RawQuery
+		cr.Headers = append(cr.Headers, [2]string{"Content-Type", "application/x-www-form-urlencoded"})
+	}
 	cr.Headers = append(cr.Headers, lines...)
 	if ck := jar.Header(cfg.scheme(), rq.Host, "/oauth2/callback"); ck != "" {
 		cr.Headers = append(cr.Headers, [2]string{"Cookie", ck})
 	}
 	mark2 := len(e.idp.Calls)
+	if e.cur != nil {
+		e.curMark = e.cur.R.NumCalls()
+	}
 	o := e.observe(e.serve(px, cr, rq.TLS), mark2)
 	o.Start = start
 	return o
@@ -1196,10 +1278,17 @@ func c16Replay(c *Ctx, raw json.RawMessage) string {
 	}
 	e := c16NewEnv(c)
 	defer e.up.Close()
+	defer e.closeStores()
+	if cs.Mode == "rp-off-methods" {
+		return c16xReplay(c, e, &cs)
+	}
+	if cs.Mode == "rp-off-redirects" {
+		return c16rReplay(c, e, &cs)
+	}
 	if cs.Mode == "rp-on" {
 		cfg := &c16Config{Name: "rp-on:" + cs.Config, Flags: cs.Flags, Trusted: true}
 		px := e.proxy(cfg, cs.Config)
-		r := &c16Request{Name: cs.Request, Target: cs.Target, Host: cs.Host, Remote: cs.Remote}
+		r := &c16Request{Name: cs.Request, Method: cs.Method, Target: cs.Target, Host: cs.Host, Remote: cs.Remote}
 		x := e.run(px, cfg, r, cs.Fixed, 1)
 		y := e.run(px, cfg, r, append(append([][2]string{}, cs.Fixed...), cs.Headers...), 1)
 		if c16TrustedOutcome(x) != c16TrustedOutcome(y) {
@@ -1232,22 +1321,33 @@ func init() {
 	register(&checkDef{
 		id:    "C16",
 		level: "exploration",
-		rule:  "paired runs on identically seeded worlds. Reverse-proxy OFF: every configuration x request block (endpoint class x credential x remote address x TLS) x {all single values incl. extra spellings, all pairs of the 9 forwarding headers over {absent,v1,v2}; on the protected path the full product 3^9 (quick: 3^6)}: the run with headers must equal the run without in status, Location (redirect_uri, state), Set-Cookie names+attributes, token-endpoint redirect_uri, upstream hits, page links. Reverse-proxy ON: per configured header H x value of H x remote address x request: all assignments of the other 8 headers (quick: 3^5 over the address headers + all singles/pairs) must leave the trusted-IP outcome unchanged. Non-trivial = (off) the assignment contains a header value that, sent alone, changes the answer of the twin proxy with --reverse-proxy=true; (on) the assignment contains an address-bearing header",
+		rule: "paired runs on identically seeded worlds. Reverse-proxy OFF: every configuration x request block (endpoint class x credential x remote address x TLS) x {all single values incl. extra spellings, all pairs of the 9 forwarding headers over {absent,v1,v2}; on the protected path the full product 3^9 (quick: 3^6)}: the run with headers must equal the run without in status, Location (redirect_uri, state), Set-Cookie names+attributes, token-endpoint redirect_uri, upstream hits, page links. Reverse-proxy ON: per configured header H x value of H x remote address x request: all assignments of the other 8 headers (quick: 3^5 over the address headers + all singles/pairs) must leave the trusted-IP outcome unchanged. Non-trivial = (off) the assignment contains a header value that, sent alone, changes the answer of the twin proxy with --reverse-proxy=true; (on) the assignment contains an address-bearing header. " +
+			"Methods part: reverse-proxy OFF over {GET,HEAD,POST,PUT,DELETE,OPTIONS,PATCH} x endpoint class (incl. rd in a form body, form_post callback) x 5 configurations (cookie store and Redis store, each with the sign-in page and with --skip-provider-button + --skip-auth-preflight, method-scoped skip-auth routes, api routes, trusted networks, two cookie-domain sets; force-https) x {all single values of 18 headers: the statement's six + Forwarded, X-Forwarded-Port/-Prefix/-Scheme/-Server, X-Original-URL/-Host, X-Rewrite-URL, X-Forwarded-Method, X-Envoy-External-Address, CF-Connecting-IP, True-Client-IP; all pairs of the 18 (quick: all pairs of the twelve further ones)}, Redis: operations on the store are part of the compared view; reverse-proxy ON per accepted --real-client-ip-header name (5) x method x value of that header x peer x request: all single values of the other 17 headers and all pairs (quick: pairs of the address-bearing ones) leave the trusted-IP outcome unchanged. Non-trivial = (off) the assignment contains a header whose value, put into the request property the header imitates (host, port, scheme, URI, prefix on the reverse-proxy twin; method and peer address on the request itself), changes the answer; (on) it contains an address on the other side of the trusted networks than the baseline outcome. " +
+			"Redirect-target part: reverse-proxy OFF over endpoint {sign_out, start, sign_in page, sign_in form login, callback (target from the state), protected path} x carrier {rd, X-Auth-Request-Redirect} x request host {whitelisted, not whitelisted} x absolute redirect target scheme://H/P with H in {request hosts, whitelisted hosts, wildcard-port host, foreign host} and P in {/, /app, proxy prefix and its sign_in/start/callback} x forwarding assignment {X-Forwarded-Host over the same hosts and case variants, alone and with X-Forwarded-Proto / -Uri; X-Original-Host, X-Forwarded-Server, Forwarded host= over the same}. Non-trivial = the baseline depends on the redirect target (differs from the request without the carrier) and the assignment names a host",
 		assumptions: []string{
 			"cookie values are not compared (they embed provider-minted tokens); names and all attributes are",
 			"headers forwarded to the upstream are not compared (the proxy relays request headers and appends X-Forwarded-For by design); method and request URI of upstream hits are",
 			"force-https is installed by rebuilding the real pre-auth chain and router on a built proxy (buildPreAuthChain + buildServeMux) because the flag path would open a TLS listener; no listener is opened",
 			"reverse-proxy ON with the configured header absent or holding a list: the documentation does not pin the outcome down; only the relational clause is checked there (counted as ambiguous)",
 			"the baseline of a block is executed once (and re-checked at the start and end of the block) rather than before every variant; every reported violation re-executes both halves of the pair 5 times",
+			"Redis configurations: one miniredis per configuration shared by the proxy and its reverse-proxy twin; its content after the credential login is put back before every run; of the store traffic the operation names in order are compared, not keys or values",
+			"methods part: a baseline class is prescribed only for application paths and /oauth2/auth (passes <=> session | trusted peer | skip-auth route matching path and method | OPTIONS under --skip-auth-preflight) and for login flows; the other endpoint x method combinations are executed, compared and counted by class; bodies of HEAD responses (dropped by a real server) are compared too",
+			"X-Auth-Request-Redirect is the documented carrier of a redirect target and is honoured in either mode; in the redirect-target part it is present in both runs of a pair, never part of the varied headers",
+			"page links are extracted by a linear scan equivalent to the expression c16LinkRE (cross-checked against it on every response in the thorough tier)",
 		},
 		shards: func(tier string) int { return 16 },
 		run: func(c *Ctx) {
 			concRunFor(c, "C16")
 			e := c16NewEnv(c)
 			defer e.up.Close()
+			defer e.closeStores()
 			e.runOff()
 			e.runOn()
+			e.runMethods()   // c16_methods_test.go
+			e.runOnMethods() // c16_methods_test.go
+			e.runRedirects() // c16_redirects_test.go
 		},
+		post: func(c *Ctx) { c16xPost(c); c16rPost(c) },
 		replay: func(c *Ctx, raw json.RawMessage) string {
 			if out, ok := concReplayFor(c, "C16", raw); ok {
 				return out
